@@ -1,0 +1,40 @@
+//go:build !verif
+// +build !verif
+
+package nitro
+
+import (
+	"bufio"
+	"os"
+	"unsafe"
+)
+
+// Verification hook points (build tag verif only).
+const (
+	VpOpenChecked         = iota + 101 // Snapshot.Open: refcount read, before the increment (arg = snapshot)
+	VpCloseDecremented                 // Snapshot.Close: after the decrement (arg = snapshot)
+	VpCloseRetired                     // Snapshot.Close: after moving to the retired list, before GC (arg = snapshot)
+	VpGCEntered                        // GC: collector flag taken
+	VpGCLeaving                        // GC: before dropping the collector flag
+	VpCollectBeforeSend                // collectDead: before handing a list to the workers (arg = snapshot)
+	VpDelNodeEntry                     // Writer.DeleteNode: on entry (arg = node)
+	VpDelNodeBeforeCAS                 // Writer.DeleteNode: before the deadSn CAS (arg = node)
+	VpDelNodeBeforeFlush               // Writer.DeleteNode: before FlushSession (arg = node)
+	VpDelete2Found                     // Writer.Delete2: lookup returned a node, before DeleteNode (arg = node)
+	VpStoreBeforeManifest              // StoreToDisk: before a manifest file write (arg = *string path)
+	VpStoreAfterManifest               // StoreToDisk: after a manifest file write (arg = *string path)
+	VpStoreReturning                   // StoreToDisk: body finished, deferred closes about to run
+	VpFileBeforeFlush                  // rawFileWriter.Close: before Flush (arg = *string path)
+	VpFileBeforeClose                  // rawFileWriter.Close: before fd.Close (arg = *string path)
+	VpFileClosed                       // rawFileWriter.Close: after fd.Close (arg = *string path)
+	VpWorkerBeforeUnlink               // collectionWorker: before unlinking one dead node (arg = node)
+	VpWorkerBeforeFlush                // collectionWorker: before FlushSession of a collected list
+	VpFreeBeforeFree                   // freeWorker: before freeing one node (arg = node)
+)
+
+// verifPoint is a no-op unless built with -tags verif.
+func verifPoint(id int, arg unsafe.Pointer) {}
+
+func verifPathPoint(id int, path string) {}
+
+func verifWrapWriter(w *bufio.Writer, fd *os.File, path string) *bufio.Writer { return w }
